@@ -31,6 +31,65 @@ theorem heap_ordered (d m : Int) (ops : List Op) (k : Nat) (hk0 : 0 < k) (hk : k
     less (run (newQ d m) ops) k ((k - 1) / 2) = false :=
   (reachable_wf ⟨d, m, ops, rfl⟩).2 k hk0 hk
 
+theorem idsNodup_of_inj : ∀ (l : List Nat), Inj l → idsNodup l = true := by
+  intro l
+  induction l with
+  | nil => intro _; rfl
+  | cons a r ih =>
+    intro h
+    simp only [idsNodup, Bool.and_eq_true, Bool.not_eq_true']
+    refine ⟨?_, ih ?_⟩
+    · cases hc : r.contains a
+      · rfl
+      · exfalso
+        have hm : a ∈ r := by simpa using hc
+        obtain ⟨k, hk, e⟩ := List.getElem_of_mem hm
+        have := h 0 (k + 1) (by simp) (by simpa using hk) (by simp [at_, List.getElem?_eq_getElem hk, e])
+        omega
+    · intro i j hi hj e
+      have := h (i + 1) (j + 1) (by simpa using hi) (by simpa using hj) (by simpa [at_] using e)
+      omega
+
+theorem idsNodup_of_nodup : ∀ (l : List Nat), l.Nodup → idsNodup l = true := by
+  intro l
+  induction l with
+  | nil => intro _; rfl
+  | cons a r ih =>
+    intro h
+    rw [List.nodup_cons] at h
+    simp only [idsNodup, Bool.and_eq_true, Bool.not_eq_true']
+    exact ⟨by simpa using h.1, ih h.2⟩
+
+/-- **the executable well-formedness check of the driver holds of every reachable model state**: the predicate `wfB`
+    that the check evaluates on the *implementation's* state after every operation is a theorem of the model -/
+theorem reachable_wfB {q : Q} (h : Reachable q) : wfB q = true := by
+  obtain ⟨hc, hh⟩ := reachable_wf h
+  simp only [wfB, consB, heapB, Bool.and_eq_true, List.all_eq_true, List.mem_range, Bool.or_eq_true, beq_iff_eq]
+  refine ⟨⟨⟨⟨idsNodup_of_inj _ hc.inj, idsNodup_of_nodup _ hc.keys⟩, ?_⟩, ?_⟩, ?_⟩
+  · intro i hi
+    have := hc.slot i hi
+    exact ⟨this.1, by simpa [at_] using this.2⟩
+  · intro x hx
+    have hf := find_of_mem_nodup hc.keys hx
+    have hit : itemD q x.id = x := by simp [itemD, hf]
+    by_cases hin : InPq q.pq x.id
+    · left
+      obtain ⟨k, hk, e⟩ := hin
+      have : x.id ∈ q.pq := by
+        rw [← e]; simp only [at_, List.getD_eq_getElem?_getD, List.getElem?_eq_getElem hk]; exact List.getElem_mem hk
+      simpa using this
+    · right
+      have := hc.off x.id (by simp [tracked, hf]) hin
+      rw [hit] at this; exact this
+  · intro k hk
+    by_cases hk0 : k = 0
+    · left; exact hk0
+    · right
+      have := hh k (by omega) hk
+      simp only [lessId, lessPrio_eq_rank, at_] at this
+      simp only [Bool.not_eq_true']
+      exact this
+
 /-- `lessQueueItemPriority` is the lexicographic order the statement prescribes: not-indexed first, then
     non-failed, then first-in -/
 theorem lessPrio_is_prescribed_order (x y : Item) : lessPrio x y = rankLt (rank x) (rank y) := lessPrio_eq_rank x y
